@@ -362,6 +362,33 @@ def tables(ctx: Ctx):
     writes = [e for p in flow.paths(h.node) for e in p.events if e.name == "write" and not e.deferred]
     ok = bool(writes) and all("json.dumps($elem(" in flow.dump(e.call) and ".as_json(), default=str)" in flow.dump(e.call) for e in writes)
     ctx.check(ok, "D3", "EV.tables", "the event log lines are json.dumps(report.as_json(), default=str)", h, why_bad=f"{[flow.dump(e.call)[:100] for e in writes[:2]]}", construct="EventfulHandler.handle:lines")
+    # a record reaches the log exactly when its type is configured: every path that writes a report's line has tested
+    # `<its type> in log_sim_config` true, and every path that tested it true writes (station load likewise, by its own type);
+    # the line is the entry plus a newline
+    cfg = "self.global_config.log_sim_config"
+    n_w = 0
+    for p in flow.paths(h.node):
+        ws = [e for e in p.events if e.name == "write" and not e.deferred]
+        facts = [(flow.dump(a), pol) for a, pol in p.facts()]
+        tested_true = [d for d, pol in facts if d.endswith(f" in {cfg}") and pol is True] + [d.replace(" not in ", " in ") for d, pol in facts if d.endswith(f" not in {cfg}") and pol is False]
+        tested_false = [d for d, pol in facts if d.endswith(f" in {cfg}") and pol is False] + [d.replace(" not in ", " in ") for d, pol in facts if d.endswith(f" not in {cfg}") and pol is True]
+        for e in ws:
+            n_w += 1
+            d = flow.dump(e.call)
+            per_report = "$elem(" in d and "construct_station_load_events" not in d
+            need = (f"$elem(" if per_report else "ReportType.STATION_LOAD_EVENT")
+            ok_w = any((t.startswith("$elem(") and ".report_type in " in t) if per_report else t.startswith("ReportType.STATION_LOAD_EVENT in ") for t in tested_true)
+            ctx.check(ok_w, "D3", "EV.tables", "a line is written only for a record whose type is configured for the log", h, e.raw,
+                      why_bad=f"`{d[:80]}` is written on a path [{p.cond_text()[:160]}] that has not found the record's type in log_sim_config (or found it absent): configured events are "
+                              f"missing from the log, others appear",
+                      construct="EventfulHandler.handle:filter:" + ("report" if per_report else "station-load"))
+            ctx.check(d.endswith(" + '\\n')") or d.endswith(' + "\\n")'), "D3", "EV.tables", "each record is one line (entry + newline)", h, e.raw, why_bad=f"`{d[-40:]}`",
+                      construct="EventfulHandler.handle:newline")
+        # the other direction: the type was found configured inside the per-report loop, yet nothing is written on this path
+        if not ws and any(t.startswith("$elem(") and ".report_type in " in t for t in tested_true) and p.kind in ("return", "fall"):
+            ctx.violation("D3", "EV.tables", "a record whose type is configured is written", h, p.end,
+                          why=f"path [{p.cond_text()[:160]}] found the record's type in log_sim_config and writes nothing", construct="EventfulHandler.handle:configured-not-written")
+    ctx.require(n_w >= 2, "EventfulHandler.handle: the two write sites were not found")
     # reporter
     fr = repo.func(REP, "Reporter.file_report")
     ok = any(e.name == "append" and flow.dump(e.call) == f"self.reports.append({fr.params[1]})" for p in flow.paths(fr.node) for e in p.events)
